@@ -326,7 +326,26 @@ def run(ck, only=None):
             jid = "h|" + os.path.basename(h)
             jobs.append({"id": jid, "args": args[:i] + extra + args[i:], "text": False, "fixpoint": True})
             meta[jid] = (None, None, None)
-    res = common.run_jobs(jobs, wd, timeout=60)
+    # large declaration graphs: more items than any table, bitmap or id space the analyses could have been sized for
+    # (tens of thousands), with the fact that decides every record (a float behind a typedef) at the lowest and at the highest ids
+    if not only or only.get("graph", "").startswith("large-"):
+        n = 9000
+        body = [f"struct L{i} {{ real v; int t{i}; struct L{i - 1 if i else 0} *prev; }};" for i in range(n)]
+        body[0] = "struct L0 { real v; int t0; };"
+        probe = "struct Probe { real v; int tag; };"
+        holder = "struct HoldsProbe { struct Probe p; struct L17 l; };"
+        large = {"large-probe-first": ["typedef float real;", probe] + body + [holder],
+                 "large-probe-last": ["typedef float real;"] + body + [probe, holder],
+                 "large-probe-middle": ["typedef float real;"] + body[:n // 2] + [probe] + body[n // 2:] + [holder]}
+        for gid, lines in large.items():
+            if only and only.get("graph") != gid:
+                continue
+            path = os.path.join(wd, gid + ".h")
+            open(path, "w").write("\n".join(lines) + "\n")
+            jid = f"g|large|{gid}"
+            jobs.append({"id": jid, "args": [path, "--formatter", "none", "--no-layout-tests"] + DERIVES, "inventory": True, "text": False, "fixpoint": True, "timeout": 300})
+            meta[jid] = ("large", (gid,), "(generated: typedef float real; 9000 records holding it; Probe at one end)")
+    res = common.run_jobs(jobs, wd, timeout=300)
     ref = {}
     nheaders = 0
     for jid in sorted(res):
